@@ -38,7 +38,11 @@ def run(ctx):
         # fault-free and late-fault runs only
         measure = scn["faultAt"] in ("none", "verified", "finished", "pre_inform", "post_inform")
         tok[lc.scn_key(scn)] = n
-        return {"tokens": n, "measure_threads": measure, "extra_args": ["--threads=0"] if False else []}
+        # ThreadsBounded is an invariant of every state of the running worker: sample it at the end of the link proper and,
+        # for forked fault-free links, after the parent was informed (the worker then only tears down - still a process
+        # with a thread pool, still bound by the tokens it HOLDS at that moment)
+        at = "post_inform" if (scn["fork"] and scn["faultAt"] == "none") else "written"
+        return {"tokens": n, "measure_threads": measure, "measure_at": at}
 
     def judge(scn, adm, obs):
         out = []
@@ -48,6 +52,11 @@ def run(ctx):
                         f"jobserver had {n} tokens before and {obs['tokens_left']} after the link"))
         if obs["nthreads"] is not None and obs["nthreads"] > n + 2:
             out.append((f"too-many-threads", f"{obs['nthreads']} OS threads with {n} tokens acquired (bound {n + 2})"))
+        if obs["nthreads"] is not None and obs.get("tokens_at_pause") is not None:
+            held = n - obs["tokens_at_pause"]
+            if obs["nthreads"] > held + 2:
+                out.append((f"threads-exceed-held-tokens:{obs['measured_at']}",
+                            f"at '{obs['measured_at']}' the worker has {obs['nthreads']} OS threads while holding {held} of {n} tokens (bound {held + 2})"))
         return out
 
     # the scenarios' --threads flag would override the jobserver: strip it via a Workspace subclass
